@@ -225,9 +225,8 @@ def findLatestSchemaVersion (d : Db) : Option String := (latestSchema d.schemas)
 /-! ### logs -/
 
 /-- `InsertLog`: id from the sequence unless given, date defaults to `now`, unique
-    idempotency key.  (A duplicate id is a unique violation; the real method
-    swallows it and leaves the SQL transaction aborted — unreachable through the
-    controller, which only inserts ids above every existing one.) -/
+    idempotency key; a duplicate id is a unique violation, reported as an error
+    (unreachable through the controller, which only inserts ids above every existing one). -/
 def insertLog (now : Time) (l : LogIn) (d : Db) (sq : Seqs) : Seqs × Except StoreErr (Log × Db) :=
   let (id, sq') := match l.id with
     | some i => (i, sq)
